@@ -421,10 +421,12 @@ func (r *relay) processor(id uint32) Processor {
 }
 
 func (r *relay) updateTableSize(v uint32) {
-	r.decoderMu.Lock()
-	r.decoder.SetMaxDynamicTableSize(v)
-	r.decoderMu.Unlock()
-
+	// Only the encoder is told: it is the one that writes to the endpoint which announced the
+	// size, and it signals the change in its next header block. The decoder follows the
+	// *source's* encoder, which changes its table when it receives the forwarded SETTINGS
+	// frame and says so in-band (the decoder accepts any size); header blocks the source
+	// encoded before that are still on their way and need the old table. Resizing the decoder
+	// here evicted entries those blocks refer to and ended the session with a decoding error.
 	r.encoderMu.Lock()
 	r.encoder.SetMaxDynamicTableSize(v)
 	r.encoderMu.Unlock()
@@ -618,6 +620,30 @@ func (r *relay) sendWindowUpdates(f *http2.DataFrame) error {
 func (r *relay) decodeFull(data []byte) ([]hpack.HeaderField, error) {
 	r.decoderMu.Lock()
 	defer r.decoderMu.Unlock()
+
+	// A header block may start with more than one dynamic table size update: after several
+	// changes of the size an encoder signals the smallest size in between and then the final
+	// one (RFC 7541, section 4.2). The hpack decoder this package is built against accepts only
+	// one at the start of a block, so leading updates are handed to it one by one.
+	for len(data) > 0 && data[0]&0xe0 == 0x20 {
+		n := 1
+		if data[0]&0x1f == 0x1f {
+			for n < len(data) && data[n]&0x80 != 0 {
+				n++
+			}
+			n++
+		}
+		if n >= len(data) {
+			break
+		}
+		if _, err := r.decoder.Write(data[:n]); err != nil {
+			return nil, err
+		}
+		if err := r.decoder.Close(); err != nil {
+			return nil, err
+		}
+		data = data[n:]
+	}
 	return r.decoder.DecodeFull(data)
 }
 
